@@ -473,7 +473,7 @@ type rawLine struct {
 
 var clauseKeywords = map[string]bool{
 	"requires": true, "ensures": true, "assigns": true, "tags": true, "loop": true, "invariant": true,
-	"decreases": true, "ghost": true, "pure": true, "panics": true, "nosafety": true, "doc": true, "use": true, "by": true,
+	"decreases": true, "ghost": true, "pure": true, "panics": true, "nosafety": true, "checksafety": true, "doc": true, "use": true, "by": true,
 	"assert": true, "unroll": true, "trigger": true, "establishes": true, "split": true, "implements": true, "defines": true, "panicensures": true, "generalizing": true, "hint": true, "measure": true,
 }
 
@@ -832,6 +832,8 @@ func Parse(path, src string) (*File, error) {
 				cur.Pure = true
 			case first == "panics":
 				cur.Panics = true
+			case first == "checksafety":
+				cur.CheckSafety = true
 			case first == "nosafety":
 				if strings.TrimSpace(rest) == "" {
 					cur.NoSafety = true
